@@ -44,7 +44,10 @@ def make_spec(kind, spec_text, vars_, pastify=False, unit=None, period=None, con
     if io:
         for v, t in io.items():
             for t1 in t.split('>'):          # 'input>output': declared one way first and corrected afterwards; the last call counts
-                s.set_var_io_type(v, t1)
+                if t1 == 'redeclare':
+                    s.declare_var(v, 'float')      # declared again without an io qualifier: back to the default (output)
+                else:
+                    s.set_var_io_type(v, t1)
     if unit is not None:
         s.unit = unit
     if period is not None:
